@@ -103,6 +103,23 @@ def groupOrder (l : List (GEnt × Slot)) : List Slot :=
 def translatedGlobals (ents : List GEnt) : List Slot :=
   LLVMSpec.numberFrom 0 (groupOrder (parserNumberFrom 0 ents))
 
+/-- asm/module.go indexTopLevelEntities / giveUnnamedIdentID on the identifiers AS WRITTEN: unnamed global entities (a written `@k`, or the empty name `@""`:
+    `written = none`) get 0, 1, 2, … in the order they are defined, whatever their kind; a written ID must be the very number the entity gets -/
+def indexGlobalsFrom : Int → List SrcSlot → Res (List Slot)
+  | _, [] => .ok []
+  | next, s :: rest =>
+    if s.named then
+      (match indexGlobalsFrom next rest with
+       | .ok r => .ok (s.toSlot :: r)
+       | .error => .error)
+    else if s.written == none || s.written == some next then
+      (match indexGlobalsFrom (next + 1) rest with
+       | .ok r => .ok (⟨false, next, s.counts⟩ :: r)
+       | .error => .error)
+    else .error
+
+def indexGlobals (src : List SrcSlot) : Res (List Slot) := indexGlobalsFrom 0 src
+
 /-- `m.String()` on a freshly parsed module: AssignGlobalIDs over the grouped slots (an error there is a panic in WriteTo) -/
 def printParsed (ents : List GEnt) : Res (List Slot) := assignIDs (translatedGlobals ents)
 
